@@ -47,6 +47,7 @@ func (x *ctx) sweepTweak(n int, ge *gen) {
 				bad = btc.CheckPayToContract(qx, base, hash, !par)
 			})
 			r.Eval("tweak/sweep", "")
+			countShare("tweak", false)
 			if p != "" || !ok || bad {
 				pb := []byte{0}
 				if par {
@@ -101,6 +102,7 @@ func (x *ctx) sweepEcdsa(n int, g *vlib.Rng, ge *gen) {
 					bad = btc.EcdsaVerify(other, sig, msg)
 				})
 				r.Eval("ecdsa/sweep", "")
+				countShare("ecdsa", false)
 				if p != "" || !okc || !oku || bad {
 					switch {
 					case p != "":
@@ -163,6 +165,7 @@ func (x *ctx) sweepSchnorr(n int, g *vlib.Rng, ge *gen) {
 				bad = btc.SchnorrVerify(pk, badSig, msg)
 			})
 			r.Eval("schnorr/sweep", "")
+			countShare("schnorr", false)
 			if p != "" || !ok || bad {
 				switch {
 				case p != "":
